@@ -322,6 +322,8 @@ impl Landscape {
                 s * self.spec.amp
             }
             "plateau" => self.spec.amp,
+            // only the harness's own look at the start state comes here for scripts
+            "script" => 0.0,
             "rugged" => {
                 let mut s = ch;
                 u01(splitmix64(&mut s)) * self.spec.amp
@@ -338,6 +340,13 @@ impl Landscape {
             other => panic!("unknown landscape kind {}", other),
         })
     }
+    pub fn is_script(&self) -> bool {
+        self.spec.kind == "script"
+    }
+    /// scripted decision for evaluation k (accept probability = spec.quantum)
+    pub fn script_accept(&self, k: u64) -> bool {
+        u01(h3(self.spec.salt, k, 21)) < self.spec.quantum
+    }
     pub fn rung_of(&self, i: usize) -> f64 {
         self.rung[i]
     }
@@ -353,6 +362,9 @@ pub struct Recorder {
     pub prev: Vec<u64>,
     pub obs: Vec<Obs>,
     scratch: Vec<f64>,
+    /// "script" landscapes: the score the scripted state currently pretends to hold
+    script_best: f64,
+    script_calls: u64,
 }
 
 pub struct ScriptedState {
@@ -441,7 +453,23 @@ impl State for ScriptedState {
             }
             rec.scratch.push(v);
         }
-        let score = self.land.eval(&rec.scratch);
+        let score = if self.land.is_script() {
+            // decision-scripted scores: the k-th evaluation announces "better" or "worse" whatever
+            // the parameters are (history dependent on purpose: C06 quantifies over every sequence
+            // of accept/reject decisions, including a rejected proposal that changed nothing)
+            let k = rec.script_calls;
+            rec.script_calls += 1;
+            if k == 0 {
+                Some(rec.script_best)
+            } else if self.land.script_accept(k) {
+                rec.script_best += 1.0;
+                Some(rec.script_best)
+            } else {
+                Some(rec.script_best - 0.5 - (k % 7) as f64)
+            }
+        } else {
+            self.land.eval(&rec.scratch)
+        };
         rec.obs.push(Obs { diff, score });
         score
     }
@@ -488,7 +516,12 @@ pub fn install_quiet_panic_hook() {
     use std::sync::Once;
     static ONCE: Once = Once::new();
     ONCE.call_once(|| {
-        std::panic::set_hook(Box::new(|info| {
+        let verbose = std::env::var("SIM_VERBOSE_PANIC").is_ok();
+        let default_hook = std::panic::take_hook();
+        std::panic::set_hook(Box::new(move |info| {
+            if verbose {
+                default_hook(info);
+            }
             let msg = if let Some(s) = info.payload().downcast_ref::<&str>() {
                 s.to_string()
             } else if let Some(s) = info.payload().downcast_ref::<String>() {
@@ -516,7 +549,7 @@ pub fn run_e1(ps: &ParamSpec, ls: &LandSpec, cfg: &OptCfg) -> Result<E1Run, Stri
     if x0_score.is_none() {
         return Err("scenario error: start state is invalid in its own landscape".into());
     }
-    let rec = Arc::new(Mutex::new(Recorder { prev: x0.clone(), obs: Vec::new(), scratch: Vec::new() }));
+    let rec = Arc::new(Mutex::new(Recorder { prev: x0.clone(), obs: Vec::new(), scratch: Vec::new(), script_best: 0.0, script_calls: 0 }));
     let state = ScriptedState {
         params: x0f.iter().map(|v| SharedValue::new(*v)).collect(),
         bounds: bounds.clone(),
@@ -625,13 +658,33 @@ pub fn gen_params(rng: &mut Rng, n_choices: &[(usize, u32)]) -> ParamSpec {
     }
 }
 
-pub fn gen_land_general(rng: &mut Rng) -> LandSpec {
-    let kind = rng.pick(&["peak", "plateau", "rugged", "rugged", "peak"]).to_string();
+/// `allow_script`: decision-scripted (history-dependent) scores are only meaningful for checks
+/// that reason about parameter vectors alone (C06, C19); checks that reason about scores of
+/// states (C05, C07, C20) need the score to be a function of the state.
+pub fn gen_land_general(rng: &mut Rng, allow_script: bool) -> LandSpec {
+    let kind = if allow_script {
+        rng.pick(&["peak", "plateau", "rugged", "rugged", "peak", "script"]).to_string()
+    } else {
+        rng.pick(&["peak", "plateau", "rugged", "rugged", "peak"]).to_string()
+    };
+    if kind == "script" {
+        // quantum doubles as the scripted accept probability
+        return LandSpec {
+            kind,
+            salt: rng.next_u64() >> 12,
+            quantum: *rng.pick(&[0.05, 0.3, 0.5, 0.9]),
+            amp: 1.0,
+            ladder: vec![],
+            cliff: None,
+            holes: 0.0,
+        };
+    }
     LandSpec {
         kind,
         salt: rng.next_u64() >> 12,
         quantum: *rng.pick(&[0.5, 0.1, 0.01, 0.001]),
-        amp: *rng.pick(&[1.0, 1.0, 1e-3, 100.0]),
+        // score differences from huge down to a few ulps of the score itself
+        amp: *rng.pick(&[1.0, 1.0, 1e-3, 100.0, 1e-15, 1e-12, 1e12]),
         ladder: vec![],
         cliff: *rng.pick(&[None, None, None, Some(0.3), Some(0.05), Some(0.0)]),
         holes: *rng.pick(&[0.0, 0.0, 0.1, 0.5, 0.9]),
